@@ -119,7 +119,7 @@ pub fn drive_hash(t: &mut Tracer, tier: &str, seed: u64, plan: Option<String>) {
             t.emit(&sess(), "sm9.hash1", json!({"prop": "C16", "idb": bytes(&idv), "hid": hid, "out": bytes(&o.ok().map(|x| ub(x)).unwrap_or(vec![0u8; 32])), "outcome": o.name(), "detail": o.detail()}));
             masters.push((scalar(&mut rng), idv, match hid { 1 => "sign", 3 => "enc", _ => "exch" }));
         }
-        if v["kind"] == "zerokey" || v["kind"] == "t2key" || v["kind"] == "invkey" { masters.push((arr(&v["k"]), arr(&v["idb"]), match v["hid"].as_u64().unwrap() { 1 => "sign", 3 => "enc", _ => "exch" })); }
+        if v["kind"] == "zerokey" || v["kind"] == "t2key" || v["kind"] == "invkey" || (v["kind"] == "wrapkey" && v["legal"] == 1) { masters.push((arr(&v["k"]), arr(&v["idb"]), match v["hid"].as_u64().unwrap() { 1 => "sign", 3 => "enc", _ => "exch" })); }
     }
     for (k, id, kind) in masters {
         let (k2, id2) = (k.clone(), id.clone());
@@ -206,7 +206,7 @@ pub fn drive_sign(t: &mut Tracer, tier: &str, seed: u64, plan: Option<String>) {
     // an identity whose H1(ID || 01) has a leading zero byte, and master keys for which t2 or (H1 + ks)^-1 is a short value (all from the plan)
     for v in read_plan(&plan) {
         let (kind, hid) = (v["kind"].as_str().unwrap_or(""), v["hid"].as_u64().unwrap_or(0));
-        if hid != 1 || !(kind == "smallh1" && v["found"] == 1 || kind == "t2key" || kind == "invkey") { continue; }
+        if hid != 1 || !(kind == "smallh1" && v["found"] == 1 || kind == "t2key" || kind == "invkey" || kind == "zerokey" || kind == "wrapkey" && v["legal"] == 1) { continue; }
         let c = sign_ctx(&if kind == "smallh1" { scalar(&mut rng) } else { arr(&v["k"]) });
         let idv = arr(&v["idb"]);
         if let Some((h, s, r)) = sign_event(t, &sess(), &c, &idv, None, b"crafted identity / master key", vec![]) {
@@ -327,7 +327,7 @@ pub fn drive_encrypt(t: &mut Tracer, tier: &str, seed: u64, plan: Option<String>
     // an identity whose H1(ID || 03) has a leading zero byte, and master keys for which t2 or (H1 + ke)^-1 is a short value (all from the plan)
     for v in read_plan(&plan) {
         let (kind, hid) = (v["kind"].as_str().unwrap_or(""), v["hid"].as_u64().unwrap_or(0));
-        if hid != 3 || !(kind == "smallh1" && v["found"] == 1 || kind == "t2key" || kind == "invkey") { continue; }
+        if hid != 3 || !(kind == "smallh1" && v["found"] == 1 || kind == "t2key" || kind == "invkey" || kind == "wrapkey" && v["legal"] == 1) { continue; }
         let c = enc_ctx(&if kind == "smallh1" { scalar(&mut rng) } else { arr(&v["k"]) });
         let idv = arr(&v["idb"]);
         if let Some((ct, r)) = encrypt_event(t, &sess(), &c, &idv, None, b"crafted identity / master key", vec![]) {
@@ -374,6 +374,19 @@ pub fn drive_encrypt(t: &mut Tracer, tier: &str, seed: u64, plan: Option<String>
             decrypt_event(t, &sess(), &c, &arr(&v["idb"]), &arr(&v["idb"]), &arr(&v["ct"]), Some(&arr(&v["r"])), "spec-made");
         }
     }
+    // one more sample whose C1 has BOTH coordinates below 2^256 - p (found by trying small scripted r): the coordinate + p encodings exist for it
+    {
+        let c = enc_ctx(&scalar(&mut rng));
+        for i in 3..200i64 {
+            let r = b32(&be_add_small(&vec![0u8; 32], i));
+            let msk = c.msk;
+            let (o, _, _) = hooked(vec![r], move || Ok(msk.encrypt(b"range", b"coordinate plus p")));
+            if let Some(ct) = o.ok() { if ct.len() > 65 && ct[1] <= 0x48 && ct[33] <= 0x48 {
+                if let Some((ct2, _)) = encrypt_event(t, &sess(), &c, b"range", None, b"coordinate plus p", vec![r]) { samples.push((enc_ctx(&c.ke), b"range".to_vec(), ct2)); }
+                break;
+            } }
+        }
+    }
     // faults: every single-bit flip, truncations, C1 off the curve, other identity
     for (c, id, ct) in &samples {
         for bit in 0..(ct.len() * 8) {
@@ -395,6 +408,19 @@ pub fn drive_encrypt(t: &mut Tracer, tier: &str, seed: u64, plan: Option<String>
         decrypt_event(t, &sess(), c, id, id, &off, None, "c1-offcurve");
         let mut big = ct.clone(); for b in big[1..33].iter_mut() { *b = 0xff; }
         decrypt_event(t, &sess(), c, id, id, &big, None, "c1-x>=p");
+        // the SAME point with a coordinate written as coordinate + p (possible when it is below 2^256 - p): a parser that reduces silently sees the
+        // genuine C1 -- only the range test (or hashing the received bytes) rejects it
+        {
+            let pbytes = hexb(P9_HEX);
+            for (lo, name) in [(1usize, "c1-x+p"), (33, "c1-y+p")] {
+                if ct[lo] <= 0x48 {
+                    let mut v = ct.clone();
+                    let mut carry = 0u16;
+                    for i in (0..32).rev() { let t = v[lo + i] as u16 + pbytes[i] as u16 + carry; v[lo + i] = t as u8; carry = t >> 8; }
+                    decrypt_event(t, &sess(), c, id, id, &v, None, name);
+                }
+            }
+        }
         // forgeries that need no key when a degenerate C1 is accepted: C1 = (0,0) (or other fixed non-points) with w = 1 in GT,
         // K = KDF(C1 || w || ID) computed from public data, valid C3 for it
         for (fx, fy, name) in [(0u8, 0u8, "c1-zero-forged"), (0, 1, "c1-zero-forged"), (1, 1, "c1-zero-forged")] {
